@@ -39,6 +39,8 @@ def run(ctx):
     from .common_url import rule_safe_urlsplit, rule_special_hosts
     rule_safe_urlsplit(ctx, "R4")
     rule_special_hosts(ctx, "R4")
+    from .c20 import protocol_language
+    protocol_language(ctx, "R4p")
 
 
 # ----------------------------------------------------------------------
@@ -151,7 +153,10 @@ def _shortener_cells(repo, thorough=False):
 
     def under_known(h, pool):
         return any(h == d or h.endswith("." + d) for d in pool)
-    for d in sorted(set(short[::step] + short[-1:] + short[:1])):
+    # plus the listed domains whose first label begins like a label other code strips (www. / m. / amp): prefix-stripping slips
+    k = 40 if thorough else 5
+    prefixed = [d for d in short if d.startswith("w")][:k] + [d for d in short if d.startswith("m")][:k] + [d for d in short if d.startswith("amp")][:k]
+    for d in sorted(set(short[::step] + short[-1:] + short[:1] + prefixed)):
         for fname, modname in (("is_shortened_url", "is_shortened_url"), ("should_resolve", "should_resolve")):
             probe(modname, fname, "http://%s/" % d, False)
             probe(modname, fname, "http://%s" % d, False)
